@@ -21,6 +21,7 @@ mod choice;
 mod corpus;
 mod engine;
 mod proj;
+mod reentrant;
 mod refbridge;
 mod refdiff;
 mod refremap;
